@@ -373,7 +373,11 @@ def main(argv=None):
     if viols:
         for m, n in by_mech.items():
             print("[%s] violation mechanism %s: %d witnesses" % (pid, m, n))
-        for path_, v in replay_paths[:10]:
+        printed = set()
+        for path_, v in replay_paths:
+            if path_ in printed or len(printed) >= 12:
+                continue
+            printed.add(path_)
             print("  witness: %s" % json.dumps(v, default=_jsonable)[:600])
             print("VIOLATION property=%s replay=%s" % (pid, os.path.relpath(path_, ROOT)))
         return 1
